@@ -10,6 +10,7 @@
 package main
 
 import (
+	"sort"
 	"flag"
 	"fmt"
 	"math"
@@ -423,7 +424,40 @@ func textLineCase(r *rng.R, o *out.W, i int) {
 		t = canvas.NewTextLine(face, s, halign)
 		lines, ys = observe(t, s, []*canvas.FontFace{face})
 	})
-	term := fmt.Sprintf("KTextLine %d %s %s", halignNames[halign], cq.Bool(pmsg != ""), linesTerm(lines, ys))
+	// every character of the input that is not a line separator is in exactly one span, in order (logical order within a line)
+	cov := false
+	if pmsg == "" && t != nil {
+		var got strings.Builder
+		t.WalkLines(func(y float64, spans []canvas.TextSpan) {
+			sp := append([]canvas.TextSpan{}, spans...)
+			sort.SliceStable(sp, func(a, b int) bool {
+				ca, cb := -1, -1
+				for _, g := range sp[a].Glyphs {
+					if ca < 0 || int(g.Cluster) < ca {
+						ca = int(g.Cluster)
+					}
+				}
+				for _, g := range sp[b].Glyphs {
+					if cb < 0 || int(g.Cluster) < cb {
+						cb = int(g.Cluster)
+					}
+				}
+				return ca < cb
+			})
+			for _, x := range sp {
+				got.WriteString(x.Text)
+			}
+		})
+		want := strings.Map(func(c rune) rune {
+			switch c {
+			case '\n', '\r', '\v', '\f', 0x85, 0x2028, 0x2029:
+				return -1
+			}
+			return c
+		}, s)
+		cov = got.String() == want
+	}
+	term := fmt.Sprintf("KTextLine %d %s %s %s", halignNames[halign], cq.Bool(pmsg != ""), cq.Bool(cov), linesTerm(lines, ys))
 	var lsd []string
 	for li, l := range lines {
 		var ss []string
